@@ -131,6 +131,17 @@ class ClassInfo:
             return self.methods
         return {k: prog.view(f) for k, f in self.methods.items()}
 
+    @property
+    def emethods(self) -> Dict[str, FuncInfo]:
+        """``vmethods`` without the private helpers that are inlined at every one of their call sites: a rule that looks at ALL the methods of a class sees such a
+        helper's statements as part of its callers, not a second time as a method of its own."""
+        prog = getattr(self.module, 'prog', None)
+        if prog is None or getattr(prog, 'inliner', None) is None:
+            return self.vmethods
+        from .rules import subsumed_helpers
+        sub = subsumed_helpers(prog)
+        return {k: prog.view(f) for k, f in self.methods.items() if id(f.node) not in sub}
+
     def mro(self) -> List[Union['ClassInfo', str]]:
         if self._mro is None:
             self._mro = _c3(self)
@@ -744,6 +755,16 @@ def accessor_value(f: 'FuncInfo') -> Optional[ast.expr]:
         return None
     body = [s for s in f.node.body
             if not (isinstance(s, ast.Expr) and isinstance(s.value, ast.Constant) and isinstance(s.value.value, str))]
+    # leading aliases of an attribute of self are read through: ``cur = self._x`` ; ``if cur is None: return None`` ; ``return cur.Y``
+    while (len(body) > 1 and isinstance(body[0], ast.Assign) and len(body[0].targets) == 1 and isinstance(body[0].targets[0], ast.Name)
+           and is_self_attr(body[0].value) and not any(isinstance(n, ast.Name) and n.id == body[0].targets[0].id and isinstance(n.ctx, ast.Store) for st in body[1:] for n in ast.walk(st))):
+        import copy as _copy
+        nm, val = body[0].targets[0].id, body[0].value
+
+        class _S(ast.NodeTransformer):
+            def visit_Name(self, node):
+                return _copy.deepcopy(val) if node.id == nm and isinstance(node.ctx, ast.Load) else node
+        body = [_S().visit(_copy.deepcopy(st)) for st in body[1:]]
     # ``if self._x is None: return None`` + ``return self._x.Y``  (StateMachine.state)
     if (len(body) == 2 and isinstance(body[0], ast.If) and isinstance(body[1], ast.Return)
             and len(body[0].body) == 1 and isinstance(body[0].body[0], ast.Return) and not body[0].orelse
